@@ -189,7 +189,11 @@ fn view(e: &EntrySealedCommitted, layout: &Layout, t: &mut Tabs) -> View {
     View {
         id: e.get_id(),
         uuid: t.uuid.id(&e.get_uuid()),
-        live: e.mask_recycled_ts().is_some(),
+        // decided from the stored class values, NOT through Entry::mask_recycled_ts (code under test)
+        live: !e
+            .get_ava_set(&Attribute::Class)
+            .map(|vs| vs.to_proto_string_clone_iter().any(|c| c == "recycled" || c == "tombstone"))
+            .unwrap_or(false),
         names,
         ext,
         spn: t.val.id(&spn_string(&spn_v)),
@@ -1059,7 +1063,7 @@ fn main() {
 transaction = 1..4 backend calls (create, modify / incremental_apply batches with renames, name swaps and chains, \
 recycle / revive / tombstone, uuid change, purge, update_idxmeta + reindex, in-transaction name/spn/rdn/external-id lookups), \
 then commit (85%) or abort; population <= 9 uuids, 7 names, 3 gids, 3 external ids, random index layout over 11 (attr, type) \
-pairs; raw SQLite tables dumped after every transaction. non-trivial = the history commits a rename or swap AND a \
+pairs; raw SQLite tables dumped after every transaction. 3 of 4 histories are 'clean' (batches keep the entries unique after every single entry and no lookup follows a removal in the same transaction, so the known-finding classes K1/K2 cannot fire and any failure is a fresh violation), 1 of 4 is unrestricted (swaps, rename chains, stale lookups); plus 4 scripted backend cases and 2 scripted QueryServer probes (replication rename chain, stale lookup) that confirm the two defect classes deterministically. non-trivial = the history commits a rename or swap AND a \
 recycle/revive/purge/uuid change AND contains a reindex after the first transaction or an abort".into();
 
     server_probes(&mut sink);
@@ -1158,6 +1162,12 @@ recycle/revive/purge/uuid change AND contains a reindex after the first transact
             }
             nops += out.ops.len();
             sink.bump("txn");
+            if panicked {
+                // the backend's locks are poisoned after a panic inside a write transaction: the
+                // history ends here, recorded as a transaction with an incoherent outcome
+                txns.push(capp("Txn", &["[]".into(), cbool(false), cbool(do_commit), "(mkdump [] [] [] [] [] [] false)".into()]));
+                break;
+            }
             let d = dump(&mut h, &mut txt, panicked);
             txns.push(capp("Txn", &[clist_s(&out.ops), cbool(out.ok), cbool(do_commit), d]));
         }
